@@ -48,6 +48,7 @@ func (x *Exec) runFrom(st *State, b *ssa.BasicBlock, start int, prev *ssa.BasicB
 			for _, r := range i.Results {
 				rs = append(rs, x.val(st, r))
 			}
+			st.retTag = instrOrd(i)
 			fr.ret(st, rs)
 			return
 		case *ssa.Panic:
@@ -81,6 +82,8 @@ func (x *Exec) enterBlock(st *State, b *ssa.BasicBlock, prev *ssa.BasicBlock, fr
 	if lp := fr.fi.Loops[b]; lp != nil {
 		if prev != nil && lp.Blocks[prev] {
 			x.checkInvariants(st, fr, lp, "preserved")
+			co := &Obligation{Name: fmt.Sprintf("%s/cover-loop%d-body%s", x.top.Key, lp.Ordinal, suffixFn(fr, x)), Path: strings.Join(st.path, ""), Func: x.top.Key, Kind: "cover", Hyps: append([]*Term(nil), st.hyps...), Goal: False, Cover: true, Hints: x.hints, Text: "loop body end reachable"}
+			x.W.Obls = append(x.W.Obls, co)
 			return
 		}
 		x.checkInvariants(st, fr, lp, "entry")
@@ -246,9 +249,7 @@ func (w *World) VerifyFunc(fs *FuncSpec) {
 		}
 	}
 	ev := x.funcEnv(fi, "pre", st, nil, args, nil)
-	if !initPhase {
-		x.assumeGlobalInvs(st, ev)
-	}
+	x.W.initPhase = initPhase
 	for _, c := range fs.Clauses {
 		if c.Kind == "requires" {
 			t, err := ev.EvalBool(c.E)
@@ -291,7 +292,7 @@ func (w *World) VerifyFunc(fs *FuncSpec) {
 			x.oblige(s, "ensures", fmt.Sprintf("#%d", n), c.Text, fn.Pos(), t)
 		}
 		// reachability cover of this return
-		co := &Obligation{Name: fmt.Sprintf("%s/cover-return", fi.Key), Path: strings.Join(s.path, ""), Func: fi.Key, Kind: "cover", Hyps: append([]*Term(nil), s.hyps...), Goal: False, Cover: true, Hints: x.hints, Text: "return reachable"}
+		co := &Obligation{Name: fmt.Sprintf("%s/cover-return%s", fi.Key, s.retTag), Path: strings.Join(s.path, ""), Func: fi.Key, Kind: "cover", Hyps: append([]*Term(nil), s.hyps...), Goal: False, Cover: true, Hints: x.hints, Text: "return reachable"}
 		w.Obls = append(w.Obls, co)
 	}
 	if len(fn.Blocks) == 0 {
@@ -475,6 +476,8 @@ func (x *Exec) applyHints(st *State, cls []*Clause, ev *Env, fi *FuncInfo) {
 			fmt.Sscanf(c.Text, "%d", &h.Timeout)
 		case "fuel":
 			fmt.Sscanf(c.Text, "%d", &h.Fuel)
+		case "instdepth":
+			fmt.Sscanf(c.Text, "%d", &h.InstDepth)
 		}
 	}
 	x.hints = h
